@@ -58,6 +58,10 @@ func (d *HTTPDeliverer) Deliver(ctx context.Context, delivery Delivery) Result {
 		return Result{Err: err}
 	}
 
+	if delivery.Sign != nil {
+		// Redirect hops are signed again for their own path (see checkRedirect).
+		ctx = context.WithValue(ctx, signedDeliveryKey{}, delivery)
+	}
 	req, err := http.NewRequestWithContext(ctx, method, delivery.URL, bytes.NewReader(delivery.Body))
 	if err != nil {
 		return Result{Err: err}
@@ -87,8 +91,18 @@ func (d *HTTPDeliverer) checkRedirect(req *http.Request, via []*http.Request) er
 	if err := checkEgressPolicyURL(req.Context(), req.URL, d.Policy, d.Resolver); err != nil {
 		return err
 	}
+	// The client copies the headers of the previous hop, including a signature
+	// over that hop's path: sign this hop's own method, path and body.
+	if delivery, ok := req.Context().Value(signedDeliveryKey{}).(Delivery); ok {
+		if req.Body == nil || req.Body == http.NoBody {
+			delivery.Body = nil // 301/302/303 turned the request into a bodyless GET
+		}
+		return d.applyDeliverySigning(req, delivery)
+	}
 	return nil
 }
+
+type signedDeliveryKey struct{}
 
 func (d *HTTPDeliverer) applyDeliverySigning(req *http.Request, delivery Delivery) error {
 	if delivery.Sign == nil {
